@@ -216,12 +216,12 @@ def build_harness(timeout=1500):
 
 
 def run_lines(exe, lines, jobs=JOBS, timeout=3000, args=()):
-    """Feeds `lines` (list[str]) to `exe` over stdin, sharded over `jobs` processes; returns output lines."""
+    """Feeds `lines` (list[str]) to `exe` over stdin, sharded round-robin over `jobs` processes (so that
+    runs of expensive neighbouring lines are spread out); returns the output lines in input order."""
     if not lines:
         return []
     n = max(1, min(jobs, len(lines) // 200 + 1))
-    size = (len(lines) + n - 1) // n
-    chunks = [lines[i:i + size] for i in range(0, len(lines), size)]
+    chunks = [lines[i::n] for i in range(n)]
 
     def one(chunk):
         p = subprocess.run([exe] + list(args), input=("\n".join(chunk) + "\n").encode(), stdout=subprocess.PIPE,
@@ -233,10 +233,10 @@ def run_lines(exe, lines, jobs=JOBS, timeout=3000, args=()):
             raise RuntimeError("%s: %d lines in, %d lines out (rc=%d): %s" % (exe, len(chunk), len(out), p.returncode, p.stderr.decode()[-500:]))
         return out
 
-    res = []
+    res = [None] * len(lines)
     with ThreadPoolExecutor(n) as ex:
-        for r in ex.map(one, chunks):
-            res.extend(r)
+        for i, r in enumerate(ex.map(one, chunks)):
+            res[i::n] = r
     return res
 
 
